@@ -55,6 +55,25 @@ def step (_ : Unit) (line : String) : Unit × String :=
     | ["vmsg", r, d] => match ofHex? r, d.toInt? with
       | some r, some d => if d > 300 then "bad-op" else toHex (VrfMsg.genVrfMsg r d)
       | _, _ => "bad-op"
+    | ["vbp", thr, pk, pv, rnd, ns, _preTime, h, w, t, tq, ptq] =>
+      -- the header's own PreTime field is not an input of the model: the message is built from the parent's
+      -- random and (CurTime − parent.CurTime) only
+      match thr.toNat?, hexs [pk, pv, rnd], ns.toInt?, h.toNat?, w.toNat?, t.toNat?, tq.toNat?, ptq.toNat? with
+      | some thr, some [pk, pv, rnd], some ns, some h, some w, some t, some tq, some ptq =>
+        if h < Qn.two64 ∧ w < Qn.two64 ∧ t < Qn.two64 ∧ tq < Qn.two64 ∧ ptq < Qn.two64 then
+          match VrfMsg.blockMsg rnd ns with
+          | none => "unmodelled"
+          | some msg =>
+            match Qn.verifyBlockVRF params thr pk (beToNat pv) msg h w t tq ptq with
+            | .verifyErr _ => "err-decode"
+            | .verifyFalse => "false"
+            | .notSatisfy => "not-satisfy"
+            | .qnError => "qn-error"
+            | .panic => "PANIC"
+            | .undefined => "unmodelled"
+            | .ok => "ok"
+        else "bad-op"
+      | _, _, _, _, _, _, _, _ => "bad-op"
     | ["vbt", thr, pk, pv, rnd, ns, h, w, t, tq, ptq] =>
       match thr.toNat?, hexs [pk, pv, rnd], ns.toInt?, h.toNat?, w.toNat?, t.toNat?, tq.toNat?, ptq.toNat? with
       | some thr, some [pk, pv, rnd], some ns, some h, some w, some t, some tq, some ptq =>
